@@ -336,7 +336,7 @@ def _pair(draw):
             a = [[8, bytes([97 + i % 26]).hex()] for i in range(draw(st.sampled_from([17, 33, 40, 100])))]
     if draw(st.integers(0, 5)) == 0:
         # values that are UTF-8 text with characters beyond ASCII (U+0080..U+00FF, U+0100.., astral)
-        txt = draw(st.sampled_from(['\u00f6', '\u00e9\u00bf', '\u0080', '\u00ff', 'a\u00f6b', '\u0100', '\u65e5\u672c', '\U0001f600', 'x\u00a0']))
+        txt = draw(st.sampled_from(['\u00f6', '\u00e9\u00bf', '\u0080', '\u00ff', 'a\u00f6b', '\u0100', '\u65e5\u672c', '\U0001f600', 'x\u00a0', 'Ame\u0301lie', '\u212b', '\u2126x', '\u1100\u1161', 'q\u0323\u0307', '\uf900']))
         a.insert(draw(st.integers(0, len(a))), [draw(st.sampled_from([8, 8, 32])), txt.encode('utf-8').hex()])
         a = a[:8]
     mode = draw(st.integers(0, 5))
